@@ -210,9 +210,21 @@ class Sw (object):
     self.reset()
 
   def probe (self, data, in_port):
+    return self._observe(lambda: self.st.rx(data, in_port), in_port)
+
+  def probe_object (self, packet, in_port):
+    """Hand the datapath a packet OBJECT that was not produced by parsing bytes (what in-process links, components
+    and the datapath's own actions do)."""
+    return self._observe(lambda: self.st.sw.rx_packet(packet, in_port), in_port)
+
+  def packet_out (self, actions, data, in_port):
+    self.xid += 1
+    return self._observe(lambda: self.st.feed(W.packet_out(self.xid, actions, data, in_port=in_port)), in_port)
+
+  def _observe (self, do, in_port):
     self.calls += 1
     try:
-      self.st.rx(data, in_port)
+      do()
     except Exception as e:
       return ("raise", _site(e))
     outs = tuple(p for p, f in self.st.take_out())
@@ -555,7 +567,18 @@ def history_alphabet ():
   return lookup_alphabet() + [
     ("tp_dst=80", W.match_fields(dl_type=0x0800, nw_proto=6, tp_dst=80)),
     ("dl_vlan=5", W.match_fields(dl_vlan=5)),
+    ("dl_vlan_pcp=2", W.match_fields(dl_vlan_pcp=2)),
   ]
+
+# VLAN action lists put in front of output:OFPP_TABLE in a packet-out (the datapath builds / edits / drops the tag itself)
+VLAN_ACTIONS = ((("vid", 5),), (("vid", 0x123),), (("vid", 0),), (("pcp", 2),), (("pcp", 7),), (("vid", 5), ("pcp", 2)),
+                (("pcp", 2), ("vid", 5)), (("strip",),), (("strip",), ("vid", 5)))
+
+def wire_actions (ops):
+  b = b""
+  for op in ops:
+    b += W.a_set_vlan_vid(op[1]) if op[0] == "vid" else W.a_set_vlan_pcp(op[1]) if op[0] == "pcp" else W.a_strip_vlan()
+  return b + W.a_output(W.OFPP_TABLE)
 
 
 def history_frames ():
@@ -659,6 +682,47 @@ class HistoryChecker (object):
                   dict(kind="history", entries=[list(e) for e in seq], frames=[fs[i].name for i in hist]))
 
 
+  def check_packet_out (self, seq, only=None):
+    """packet-out [VLAN actions..., output:TABLE] for every Ethernet II frame x action list, back to back in one table:
+    the lookup must pick what the reference picks for the re-tagged frame's BYTES."""
+    rep, lc, sw = self.rep, self.live, self.live.sw
+    sw.clear()
+    table = []
+    for k, (mid, prio) in enumerate(seq):
+      if sw.install(lc.alpha[mid], prio, OUT + k) is not None: sw.reset(); return
+      table.append((mid, prio, OUT + k))
+    rep.transitions += len(seq); rep.state_count += 1
+    byport = dict((e[2], e) for e in table)
+    eff = lambda e: (1 << 16) + 1 if lc.ref[e[0]][1] else e[1]
+    for fr in self.frames:
+      if R.layout(fr.data) is None: continue          # tagged 802.3/LLC frames: specification silent
+      for ops in VLAN_ACTIONS:
+        if only is not None and (fr.name, ops) != only: continue
+        after = R.retag(fr.data, ops)
+        fields = R.extract(after, fr.in_port)[0]
+        ms = [e for e in table if ref_matches(lc.ref[e[0]][0], fields)]
+        top = max(eff(e) for e in ms) if ms else None
+        cands = [e for e in ms if eff(e) == top]
+        got = sw.packet_out(wire_actions(ops), fr.data, fr.in_port)
+        rep.evaluations += 1; rep.transitions += 1
+        gote = byport.get(got[1][0]) if got[0] == "out" and len(got[1]) == 1 else None
+        opn = "+".join("%s:%s" % (o[0], o[1]) if len(o) > 1 else o[0] for o in ops)
+        rep.outcome(("PO", fr.name, opn, tuple(sorted(e[0] for e in cands)), gote[0] if gote else got))
+        if (got == ("miss",) and not cands) or (gote is not None and gote in cands): continue
+        if got[0] == "raise": clause = "raises:" + got[1]
+        elif got == ("miss",): clause = "packet-out-table:false-miss"
+        elif gote is None: clause = "packet-out-table:odd-observation"
+        elif gote not in ms: clause = "packet-out-table:false-hit"
+        else: clause = "packet-out-table:not-highest-priority"
+        rep.violation("%s:%s" % (PID, clause),
+                      "table %s: packet-out of frame %s (in_port %d) with actions [%s, output:TABLE] -> %r; the re-tagged frame %s "
+                      "(dl_vlan=%#x pcp=%d dl_type=%#x) is matched by %s" % (["%s@%d" % e for e in seq], fr.name, fr.in_port, opn,
+                      ("%s@%d" % (gote[0], gote[1])) if gote else got, after.hex()[:44] + "..", fields["dl_vlan"], fields["dl_vlan_pcp"],
+                      fields["dl_type"], ["%s@%d" % (e[0], e[1]) for e in cands] or "no entry (packet-in expected)"),
+                      dict(kind="packet-out", entries=[list(e) for e in seq], frame=fr.name, ops=[list(o) for o in ops]))
+    sw.clear()
+
+
 def _work_h (item):
   from mc.env import boot
   boot()
@@ -668,13 +732,125 @@ def _work_h (item):
   walk = pair_walk(n)
   for seq in tables:
     hc.check(seq, walk)
+    hc.check_packet_out(seq)
     if triples and len(seq) <= 2: hc.check(seq, de_bruijn(n, 3))
   hc.rep.extra["switch_rebuilds"] = hc.live.sw.resets
   return hc.rep
 
 
+# ---------------------------------------------------------------------------------------------
+# packet objects that were not produced by parsing bytes (part O)
+# ---------------------------------------------------------------------------------------------
+TAGS = ("asis", "none", (5, 2), (0x123, 0), (0, 7), (0xfff, 5))
+
+def build_object (fr, tag="asis"):
+  """The frame as a chain of pox.lib.packet objects assembled field by field with the constructors (the way components
+  and the datapath's actions make packets), never parse().  tag: keep the frame's own tag / no tag / (vid, pcp).
+  None for frames this builder does not cover (802.3/LLC)."""
+  import struct
+  import pox.lib.packet as pkt
+  from pox.lib.addresses import EthAddr, IPAddr
+  L = R.layout(fr.data)
+  if L is None: return None
+  if L["etype"] == 0x0800 and L.get("ihl") != 20: return None       # IP options: no constructor argument for them
+  d = fr.data
+  e = pkt.ethernet(dst=EthAddr(d[0:6]), src=EthAddr(d[6:12]))
+  et = L["etype"]; l3 = L["l3"]
+  if et == 0x0800:
+    ip = pkt.ipv4(srcip=IPAddr(d[l3+12:l3+16]), dstip=IPAddr(d[l3+16:l3+20]), protocol=L["proto"], tos=L["tos"], id=L["ident"],
+                  flags=L["fragword"] >> 13, frag=L["fragword"] & 0x1fff, ttl=L["ttl"])
+    l4 = L["l4"]; frag = (L["fragword"] & 0x3fff) != 0
+    if not frag and L["proto"] == 6:
+      sp, dp, seq, ack, off, fl, win = struct.unpack_from("!HHLLBBH", d, l4)
+      ip.payload = pkt.tcp(srcport=sp, dstport=dp, seq=seq, ack=ack, off=off >> 4, flags=fl, win=win, payload=d[l4 + (off >> 4) * 4:])
+    elif not frag and L["proto"] == 17:
+      sp, dp = struct.unpack_from("!HH", d, l4)
+      ip.payload = pkt.udp(srcport=sp, dstport=dp, payload=d[l4+8:])
+    elif not frag and L["proto"] == 1:
+      ip.payload = pkt.icmp(type=d[l4], code=d[l4+1], payload=d[l4+4:])
+    else:
+      ip.payload = d[l4:]
+    inner = ip
+  elif et == 0x0806:
+    inner = pkt.arp(opcode=struct.unpack_from("!H", d, l3 + 6)[0], hwsrc=EthAddr(d[l3+8:l3+14]), protosrc=IPAddr(d[l3+14:l3+18]),
+                    hwdst=EthAddr(d[l3+18:l3+24]), protodst=IPAddr(d[l3+24:l3+28]))
+  else:
+    inner = d[l3:]
+  if tag == "asis": tag = (L["tci"] & 0xfff, L["tci"] >> 13) if L["tagged"] else "none"
+  if tag == "none":
+    e.type = et; e.payload = inner
+  else:
+    e.type = 0x8100; e.payload = pkt.vlan(id=tag[0], pcp=tag[1], eth_type=et, payload=inner)
+  return e
+
+
+class _Stub (object):
+  def __init__ (self, dl_type): self.want = dict(dl_type=dl_type)
+
+
+def object_matches (fields, app):
+  """(field, wire bytes): for every field the frame has, a match on that field alone (with its prerequisites specified)
+  carrying the frame's value, and one carrying a differing value; plus the exact match of the frame."""
+  out = []
+  for f in FIELDS:
+    if f not in app: continue
+    for v in [fields[f]] + alternatives(f, fields[f], _Stub(fields["dl_type"]), (0, 31))[:1]:
+      kw = {f: v}
+      if f.startswith(("nw_", "tp_")): kw.setdefault("dl_type", fields["dl_type"])
+      if f.startswith("tp_"): kw.setdefault("nw_proto", fields["nw_proto"])
+      out.append((f, W.match_fields(**kw)))
+  return out + [("exact", W.match(wildcards=0, **fields))]
+
+
+def check_object (rep, sw, fr, tag):
+  obj = build_object(fr, tag)
+  if obj is None: return False
+  data = obj.pack()
+  fields, app = R.extract(data, fr.in_port)
+  rep.state_count += 1
+  wrong_obj, wrong_bytes = [], []
+  for f, mb in object_matches(fields, app):
+    want = ref_matches(ref_match(W.parse_match(mb)), fields)
+    if sw.install(mb) is not None: sw.reset(); continue
+    got_o = sw.probe_object(build_object(fr, tag), fr.in_port)        # a fresh object per lookup
+    got_b = sw.probe(data, fr.in_port)
+    sw.clear()
+    rep.evaluations += 2; rep.transitions += 4
+    rep.outcome(("O", fr.name, str(tag), f, got_o, got_b))
+    ok = ("out", (OUT,)) if want else ("miss",)
+    if got_o != ok: wrong_obj.append((f, got_o, want))
+    if got_b != ok: wrong_bytes.append((f, got_b, want))
+  name = "%s built with constructors (tag %s)" % (fr.name, tag if isinstance(tag, str) else "vid %#x pcp %d" % tag)
+  if tag == (5, 2):
+    rep.sample(dict(built=name, packed=data.hex(), single_field_matches=len(object_matches(fields, app)),
+                    verdict="object and packed bytes both looked up as the reference says" if not (wrong_obj or wrong_bytes) else "differs"))
+  rdata = dict(kind="object", frame=fr.name, tag=tag if isinstance(tag, str) else list(tag))
+  for wrong, clause, how in ((wrong_bytes, "built-packet:packed-bytes-misjudged", "its packed bytes %s injected" % data.hex()[:44]),
+                             (wrong_obj, "built-packet:object-treated-differently-from-its-bytes", "the object handed to rx_packet")):
+    if wrong and not (clause.endswith("its-bytes") and wrong == wrong_obj and wrong_obj == wrong_bytes):
+      f, got, want = wrong[0]
+      rep.violation("%s:%s:field=%s" % (PID, clause, f),
+                    "%s, %s: a match on %s that %s the frame gives %r (fields of the packed bytes: dl_vlan=%#x pcp=%d dl_type=%#x); "
+                    "all disagreeing single-field matches: %s" % (name, how, f, "matches" if want else "does not match", got,
+                    fields["dl_vlan"], fields["dl_vlan_pcp"], fields["dl_type"], ",".join(sorted(set(w[0] for w in wrong)))), rdata)
+  return bool(wrong_obj or wrong_bytes)
+
+
+def _work_o (item):
+  from mc.env import boot
+  boot()
+  _, names = item
+  rep = Report(PID, "model_checking")
+  sw = Sw()
+  for fr in history_frames():
+    if fr.name not in names: continue
+    for tag in TAGS: check_object(rep, sw, fr, tag)
+  rep.extra["switch_rebuilds"] = sw.resets
+  return rep
+
+
 def _work (item):
-  return {"A": _work_a, "P": _work_p, "B": _work_b, "H": _work_h}[item[0]](item)
+  return {"A": _work_a, "P": _work_p, "B": _work_b, "H": _work_h, "O": _work_o}[item[0]](item)
 
 
 # ---------------------------------------------------------------------------------------------
@@ -702,6 +878,8 @@ def run (cfg):
     ht = history_tables(thorough)
     step = cfg.pick(4, 3)
     items += [("H", ht[i:i+step], thorough) for i in range(0, len(ht), step)]
+  if cfg.only in (None, "O"):
+    items += [("O", (f.name,)) for f in history_frames() if R.layout(f.data) is not None and R.layout(f.data).get("ihl", 20) == 20]
   ncp = cfg.pick(2, 4)
   if thorough:
     a_rule = ("counters {0,32}^2 x {V0: the frame's own values, fields the frame lacks carrying non-zero garbage; V0 with wildcarded fields "
@@ -781,6 +959,23 @@ def replay (cfg, data):
     return bool(rep.violations), "\n".join(lines)
   frames = dict((f.name, f) for f in history_frames())
   fr = frames[data["frame"]]
+  if data["kind"] == "object":
+    tag = data["tag"] if isinstance(data["tag"], str) else tuple(data["tag"])
+    check_object(rep, Sw(), fr, tag)
+    obj = build_object(fr, tag)
+    lines = ["frame %s assembled with pox.lib.packet constructors, tag %r: %s" % (fr.name, tag, obj.pack().hex())]
+    for k, v in sorted(rep.violations.items()): lines.append("%s: %s" % (k, v["what"]))
+    return bool(rep.violations), "\n".join(lines)
+  if data["kind"] == "packet-out":
+    hc = HistoryChecker(rep)
+    seq = tuple((e[0], int(e[1])) for e in data["entries"])
+    ops = tuple(tuple(o) for o in data["ops"])
+    hc.check_packet_out(seq, only=(fr.name, ops))
+    lines = ["table: " + ", ".join("%s priority %d -> port %d" % (m, p, OUT + i) for i, (m, p) in enumerate(seq)),
+             "packet-out of frame %s, in_port %d, actions %r + output:TABLE; re-tagged bytes per specification: %s"
+             % (fr.name, fr.in_port, ops, R.retag(fr.data, ops).hex())]
+    for k, v in sorted(rep.violations.items()): lines.append("%s: %s" % (k, v["what"]))
+    return bool(rep.violations), "\n".join(lines)
   fields, app = R.extract(fr.data, fr.in_port)
   lines = ["frame %s on port %d: %s" % (fr.name, fr.in_port, fr.data.hex()),
            "  fields per specification: " + ", ".join("%s=%s" % (f, fields[f].hex() if isinstance(fields[f], bytes) else hex(fields[f]))
